@@ -13,7 +13,7 @@ import ast
 from ..astutil import call_name, calls, kwarg, parents, u
 from ..formula import extract, same, same_events, same_store, spec
 from ..model import AnalysisError
-from ..termflow import AList, Poly, key_atom, show, vkey, _is_polykey, poly_from_key, equivalent
+from ..termflow import AList, Poly, Unsupported, key_atom, show, vkey, _is_polykey, poly_from_key, equivalent
 
 CACHE_DECOS = ("lru_cache", "list_of_np_cache", "two_np_arr_cache")
 
@@ -246,6 +246,54 @@ def rule_K3(ctx):
     sp = spec(prog, "def s(children):\n    return np.ascontiguousarray(_sub_compute_S(compute_log_D(children)))\n", g, args=[AList([A, B, C])], no_inline=["_convolve_two_children"], commutative=COMM)
     same(ctx, "K3", "compute_log_S = running log-sum of the fold", g, ex.result, sp.result, "log S")
     ctx.analysed(f, g)
+
+
+VERIFIED_SYMMETRIC = {"phyclone.tree.utils.compute_log_S", "phyclone.tree.utils._convolve_two_children"}
+
+
+def rule_K6(ctx):
+    """The content-hash decorators key on the *multiset* of arrays (list_of_np_cache) / the unordered pair
+    (two_np_arr_cache).  Every function they decorate must return the same value for every order of its arrays:
+    the two functions K3 verifies, or any other function whose result is invariant under permuting symbolic
+    children (a body that also returns order-dependent data, e.g. per-child back-pointers, is served the entry of
+    a different order)."""
+    import itertools
+
+    from ..termflow import equivalent
+
+    prog = ctx.prog
+    ctx.rule("K6", "every function memoised under an order-insensitive content key returns an order-insensitive value", 2)
+    n = 0
+    for fi in prog.functions.values():
+        decs = [d for d in fi.decorators if d.split("(")[0].split(".")[-1] in ("list_of_np_cache", "two_np_arr_cache")]
+        if not decs:
+            continue
+        n += 1
+        if fi.qualname in VERIFIED_SYMMETRIC:
+            ctx.ok("K6", "%s: order-insensitive body (verified by K3)" % fi.qualname, fi.where())
+            continue
+        A, B, C = (Poly.atom(("v", x)) for x in "ABC")
+        pair = decs[0].split("(")[0].split(".")[-1] == "two_np_arr_cache"
+        try:
+            if pair:
+                vals = [extract(prog, fi, args=list(p), commutative=COMM).result for p in ([A, B], [B, A])]
+            else:
+                vals = [extract(prog, fi, args=[AList(list(p))], no_inline=["_convolve_two_children"], commutative=COMM).result for p in itertools.permutations([A, B, C])]
+        except Unsupported as e:
+            raise AnalysisError("K6: %s is memoised under an order-insensitive key and its body cannot be interpreted (%s)" % (fi.qualname, str(e)[:100]))
+        base = _ac(vkey(vals[0]), "_convolve_two_children")
+        ok = True
+        for v in vals[1:]:
+            if _ac(vkey(v), "_convolve_two_children") != base:
+                try:
+                    if not equivalent(v, vals[0])[0]:
+                        ok = False
+                except Unsupported:
+                    ok = False
+        ctx.check(ok, "K6", "%s: value invariant under every order of its arrays" % fi.qualname, fi.where(), "%s is memoised by %s, whose key ignores the order of the arrays, but its result depends on that order (%s for one order): a call with the same arrays in another order is served the wrong entry" % (fi.qualname, decs[0].split("(")[0], show(vals[0])[:160]), construct=fi.qualname, stmt="order-insensitive key, order-sensitive body")
+        ctx.analysed(fi)
+    if n < 2:
+        raise AnalysisError("K6: expected at least the two memoised convolution helpers, found %d decorated functions" % n)
 
 
 INPLACE_METHODS = {"sort", "fill", "resize", "put", "itemset", "partition", "byteswap", "setfield"}
@@ -521,6 +569,7 @@ def run(ctx):
     rule_K3(ctx)
     rule_K4(ctx)
     rule_K5(ctx)
+    rule_K6(ctx)
 
 
 _UU = "phyclone/utils/utils.py"
